@@ -8,10 +8,11 @@ EXPLANATION = ("gix_validate::tag::name_inner builds its output only in Mode::Sa
                "name_inner is cut off from entry once the `out is None` edges (discriminant switches on views of `out`, is_none() true edges, is_some() false edges) are "
                "removed, so sanitizing cannot return an error; that indexing [0]/[len-1] of the output after the trimming loops is preceded by an emptiness test; that all "
                "loops of gix-validate make progress; that name_partial_or_sanitize reaches name_inner with Mode::Sanitize and unwraps only what that mode guarantees. "
-               "That the accepted set equals `git check-ref-format` is a differential value property and is not decided.")
+               "That the accepted set equals `git check-ref-format` is a differential value property and is not decided. No comparison of a length with a constant decides whether a `.lock` component is refused.")
 
 
 def run(db, chk):
+    lock_suffix_rule(db, chk)
     one_level_table(db, chk)
     sole_at_rule(db, chk)
     f = db.one(r"^gix_validate::tag::name_inner$")
@@ -165,3 +166,67 @@ def sole_at_rule(db, chk):
                     hit = True
     chk.ob("sole-at-is-rejected", "tag::name_inner", hit, "no comparison of the whole name with the one-byte string @: git check-ref-format refuses the name `@`, here it is accepted (and left as is by the sanitizer)",
            "%s:%d" % (f.file, f.line), key="sole-at|name_inner")
+
+
+def lock_suffix_rule(db, chk):
+    """git refuses every component that ends in `.lock`, however short its stem (`a.lock/b`).  In name_inner the construction of
+    Error::LockFileSuffix (and the sanitizer's truncation loop beside it) is decided by the ends_with test, the `/`-or-end-of-input position and
+    the sanitize mode - never by a comparison of a LENGTH with a constant: such a guard exempts components of some length."""
+    from gx.flow import Flow, comparisons, bool_switch_edges
+    f = db.one(r"^gix_validate::tag::name_inner$")
+    fl = Flow(f)
+    errs = [bi for bi, si, pl, rv, ln, mc in f.assigns() if rv[0] == "agg" and rv[3] == "LockFileSuffix"]
+    chk.floor("name_inner: Error::LockFileSuffix constructions", len(errs), 2)
+
+    def from_len(op):
+        if "p" not in op:
+            return False
+        seen, work = set(), [op["p"][0]]
+        while work:
+            l = work.pop()
+            if l in seen or not isinstance(l, int):
+                continue
+            seen.add(l)
+            for b2, s2, pl2, rv2, ln2, mc2 in f.assigns():
+                if pl2 and pl2[0] == l:
+                    if rv2[0] == "un" and rv2[1] == "PtrMetadata":
+                        return True
+                    for o in ([rv2[1]] if rv2[0] == "use" else [rv2[2]] if rv2[0] in ("cast", "un") else []):
+                        if isinstance(o, dict) and "p" in o:
+                            work.append(o["p"][0])
+            for c in f.calls():
+                if c.dest and c.dest[0] == l and c.is_(r"::len$"):
+                    return True
+        return False
+    bad = []
+    for cm in comparisons(f):
+        for side, other in (("a", "b"), ("b", "a")):
+            if "p" in cm[other]:
+                ro = fl.roots(cm[other], stop_named=False)
+                if not ro or not all(x[0] in ("const", "promoted", "constdef") or (x[0] == "call" and x[1].endswith("::len")) for x in ro):
+                    continue
+                cval = "a constant length"
+            else:
+                if not isinstance(cm[other].get("v"), int) or cm[other]["v"] < 1:
+                    continue
+                cval = cm[other]["v"]
+            if not from_len(cm[side]):
+                continue
+            rs = fl.roots(cm[side], stop_named=False)
+            if not any(x[0] in ("arg", "var") for x in rs):
+                continue
+            e = bool_switch_edges(f, cm["block"], cm["res"])
+            if not e:
+                continue
+            for er in errs:
+                ra = any(er in f.reach_from(t) or er == t for _, t in e[0])
+                rb = any(er in f.reach_from(t) or er == t for _, t in e[1])
+                lps = [l for l in f.loops() if cm["block"] in l["body"]]
+                hdr = {min(lps, key=lambda l: len(l["body"]))["header"]} if lps else set()
+                ra = any(er == t or er in f.reach_from(t, avoid=hdr) for _, t in e[0])
+                rb = any(er == t or er in f.reach_from(t, avoid=hdr) for _, t in e[1])
+                if ra != rb:
+                    bad.append((cm.get("line", 0), cm["op"], cval))
+    chk.ob("lock-suffix-rejected-at-any-length", "name_inner LockFileSuffix", not bad,
+           "whether a `.lock` component is refused depends on a length compared with a constant %s: components of the exempted length (`a.lock/b`) are accepted although git refuses them" % sorted(set(bad))[:2],
+           "%s:%d" % (f.file, f.line), key="lock-suffix-length|name_inner")
